@@ -407,6 +407,7 @@ def lines_nonempty(infos):
 @contract("reuse.report.FileReport.generate", serves=["C01", "C06", "C13", "C18"])
 class FileReportGenerate:
     fresh_result = True
+    raises = {Exception: None}      # anything the file system or the parsers raise; the worker callable contains it
     types = {"project": "Project", "path": "Path", "do_checksum": "bool", "add_license_concluded": "bool", "return": "FileReport"}
     raises_iff = {OSError: lambda path: not path.is_file()}
     # k0 is an arbitrary identifier: proving the pointwise statements for it proves them for every identifier;
